@@ -164,7 +164,7 @@ def run(tier, seed):
     params = {'u1_depth': 2, 'u2_depth': 1, 'two_depth': 2, 'u3_depth': 1, 'long_depth': 3, 'uc_depth': 4} if tier == 'quick' else \
         {'u1_depth': 3, 'two_depth': 3, 'u2_depth': 2, 'u3_depth': 1, 'long_depth': 4, 'uc_depth': 5}
     return base.run_state_property(
-        PROP, LEVEL, state_fn, tier, seed, which=which, params=params, reduced=base.REDUCED_TINY,
+        PROP, LEVEL, state_fn, tier, seed, thorough_full=(0, 1), which=which, params=params, reduced=base.REDUCED_TINY,
         vacuity={'windows_cutting_a_run': 100, 'states_with_attrs': 5}, sample_fn=base.default_samples,
         rule='BFS over add_*/add_node histories, both classes, removal enabled; every distinct state x every window a<=b over '
              'o-1..o+w (and the one-argument form) : class, has_interaction(H) == clipped has_interaction(G) on all pairs x instants, '
